@@ -16,6 +16,9 @@ CHECKS = {
  "C13": dict(technique="Coq proof: byte-list model of every CPU buffer primitive with frame/read-back/aliasing/independence theorems + certified history checker evaluated by vm_compute on observed buffers",
              text="Theorems (closed): every updating primitive changes exactly [off,off+len) to the source bytes and nothing else (capacity included); extraction returns exactly the requested bytes; copies are independent values, views read what was last written; grow keeps every old byte. Both CPU buffer kinds are run on exhaustive small scopes and random histories; the whole buffer and returned bytes after every call are compared with the model inside Coq.",
              ref="DESIGN.md §7 C13", note=TB + " numpy's dtype conversion is numpy's (expected converted bytes computed with numpy)."),
+ "C14": dict(technique="Coq proof: certified checker for emission orders (closure = reachability, duplicate-free, complete, dependencies first) and certified cycle / acyclicity certificates, evaluated by vm_compute on the order the real sort_classes emits",
+             text="Theorems (closed): the checker's closure is exactly reachability through fields/items/ref targets/union members/_depends_on; an accepted order is duplicate-free, is exactly the reachable API-bearing classes and puts every class after all it uses; a valid order excludes cycles; cycle and rank certificates are sound. Real classes are generated (exhaustive small graphs incl. cyclic, random larger ones), the real sort_classes output is judged inside Coq, and a sample is really compiled with cffi (supporting).",
+             ref="DESIGN.md §7 C14", note=TB + " 'The emitted source compiles' is a runtime fact checked by real cffi builds on a sample (supporting test, not a theorem)."),
 }
 NOT_YET = {}
 def main():
